@@ -203,7 +203,9 @@ class Decode:
 
             self.acs[icao]["icao"] = icao
             self.acs[icao]["t"] = t
-            self.acs[icao]["live"] = int(t)
+            # Comm-B replies are handled after all ADS-B messages of the chunk:
+            # an older reply must not make the aircraft look older than it is
+            self.acs[icao]["live"] = max(self.acs[icao]["live"], int(t))
 
             bds = pms.bds.infer(msg)
 
